@@ -29,7 +29,8 @@ RULE = ("Hypothesis RuleBasedStateMachine: one generated file (C04 shapes: multi
         "distinct by SHA-1 of (file, op list)."
         ' Every index / slice / window result is also compared in REPRESENTATION (container type, dtype with byte '
         'order, shape) with the same request on a freshly opened file, and arrays returned earlier are re-checked at '
-        'the end of the history: later operations must not change them.')
+        'the end of the history: later operations must not change them.'
+        ' File-level iterators may be inspected one step late (chunk k looked at after chunk k+1 was requested).')
 ASSUMPTIONS = [
     "single-threaded histories only (documented: open files are not thread-safe)",
     "canonical chunk sequences come from a fresh TdmsFile.open of the same bytes and are themselves checked against the "
